@@ -329,12 +329,24 @@ func (c *checker) run(id string) int {
 				fmt.Fprintf(os.Stderr, "violation: harness=%s label=%s %s inputs=%v\n", rc.Harness, rc.Label, rc.Detail, rc.Inputs)
 				totalViol++
 			} else if rc.Label == "deadlock" || len(rc.Sched) > 0 {
-				// schedule-dependent: cannot be forced natively; confirmed by
-				// a pinned re-execution inside the engine instead.
-				path := c.writeReplay(rc)
-				violLines = append(violLines, fmt.Sprintf("VIOLATION property=%s replay=%s", id, path))
-				fmt.Fprintf(os.Stderr, "violation (schedule-dependent, engine-confirmed): harness=%s label=%s %s inputs=%v sched=%v\n", rc.Harness, rc.Label, rc.Detail, rc.Inputs, rc.Sched)
-				totalViol++
+				// schedule-dependent: the native scheduler cannot be forced;
+				// confirmed by re-executing the real SSA in the engine with
+				// inputs and schedule pinned.
+				res := gosym.RunPinnedOnce(prog, rc.Harness, rc.Inputs, rc.Sched, c.tierN())
+				confirmed := false
+				for _, pv := range res.Violations {
+					if pv.Label == rc.Label {
+						confirmed = true
+					}
+				}
+				if confirmed {
+					path := c.writeReplay(rc)
+					violLines = append(violLines, fmt.Sprintf("VIOLATION property=%s replay=%s", id, path))
+					fmt.Fprintf(os.Stderr, "violation (schedule-dependent; native run gave %s %s; confirmed by pinned re-execution in the engine): harness=%s label=%s %s inputs=%v sched=%v\n", o.Outcome, o.Label, rc.Harness, rc.Label, rc.Detail, rc.Inputs, rc.Sched)
+					totalViol++
+				} else {
+					inconcl = append(inconcl, fmt.Sprintf("%s: schedule-dependent counterexample for %q reproduces neither natively nor under pinned re-execution", rc.Harness, rc.Label))
+				}
 			} else {
 				inconcl = append(inconcl, fmt.Sprintf("%s: counterexample for %q (%s, inputs %v) does not replay natively (native outcome %s %s %s): encoding or stub is wrong", rc.Harness, rc.Label, rc.Detail, rc.Inputs, o.Outcome, o.Label, o.PanicMsg))
 			}
